@@ -60,10 +60,12 @@ KIND_PARAMS = {
     0: lambda rng: [rng.choice([8, 8, 9, 12, 16, 20, 50, 200]), 0],
     1: lambda rng: [rng.choice([5, 5, 5, 6]), rng.choice([0, 1, 2, 3])],
     2: lambda rng: (lambda mx: [mx, rng.choice([3, mx, rng.randrange(3, mx + 1)])])(rng.choice([3, 3, 4, 4, 5, 6, 7])),
+    3: lambda rng: [rng.choice([4, 4, 6, 8, 12, 20]), rng.randrange(2)],
 }
+NKINDS = 4
 
 def upd(rng, kind, r, universe):
-    if kind == 0:
+    if kind in (0, 3):
         return [2, r, rng.randrange(-50, 1000), 1, rng.randrange(2)]
     if kind == 1:
         return [2, r, rng.randrange(universe), rng.randrange(1, 5), 0]
@@ -73,10 +75,10 @@ def gen_ledger(rng, tier):
     ncases = 90 if tier == 'quick' else 360
     cases = []
     for ci in range(ncases):
-        kind = ci % 3
+        kind = ci % NKINDS
         ops = []; tags = set(); live = {}      # register -> kind
         nreg = 5
-        universe = rng.choice([6, 20, 60, 150, 400]) if kind != 0 else 0
+        universe = rng.choice([6, 20, 60, 150, 400]) if kind in (1, 2) else 0
         budget = rng.choice([40, 120, 300]) if tier == 'quick' else rng.choice([40, 120, 300, 900])
         def free():
             f = [r for r in range(nreg) if r not in live]
@@ -98,16 +100,17 @@ def gen_ledger(rng, tier):
             if x < 0.07 or not live:
                 r = free()
                 if r is None: continue
-                k2 = kind if rng.random() < 0.9 else rng.randrange(3)
+                k2 = kind if rng.random() < 0.9 else rng.randrange(NKINDS)
                 p = KIND_PARAMS[k2](rng)
                 if rng.random() < 0.04:
                     p = [rng.choice([0, 4, 7, 27, 70000]), rng.choice([0, 9])]     # mostly refused configurations
                 ops.append([1, r, k2] + p)
-                ok = (k2 == 0 and 8 <= p[0] <= 65535) or (k2 == 1 and 5 <= p[0] <= 26 and 0 <= p[1] <= 3) or (k2 == 2 and p[1] <= p[0])
+                ok = (k2 == 0 and 8 <= p[0] <= 65535) or (k2 == 1 and 5 <= p[0] <= 26 and 0 <= p[1] <= 3) or (k2 == 2 and p[1] <= p[0] <= 12) or \
+                     (k2 == 3 and 4 <= p[0] <= 255 and p[0] % 2 == 0 and p[1] <= 1)
                 if ok: live[r] = k2
             elif x < 0.55:
                 r = some()
-                burst = rng.choice([1, 1, 3, 10, 30, 80])
+                burst = rng.choice([1, 1, 3, 10, 30, 80]) if live[r] != 3 else rng.choice([1, 3, 30, 80, 200])
                 for _ in range(burst):
                     ops.append(upd(rng, live[r], r, universe or 50))
                 tags.add('updates')
